@@ -59,7 +59,8 @@ const concTimeout = 180 * time.Second
 
 var reGoroutineHdr = regexp.MustCompile(`(?m)^goroutine \d+ \[([^\]]+)\]:$`)
 
-// lockWaitersInRepo counts goroutines of a dump that wait for a mutex with a frame of the pool / state packages on the stack.
+// lockWaitersInRepo counts goroutines of a dump that have been waiting for minutes for a mutex with a
+// frame of the pool / state packages on the stack.
 func lockWaitersInRepo(dump string) (n int, stacks []string) {
 	for _, g := range strings.Split(dump, "\n\n") {
 		m := reGoroutineHdr.FindStringSubmatch(g)
@@ -67,6 +68,9 @@ func lockWaitersInRepo(dump string) (n int, stacks []string) {
 			continue
 		}
 		st := m[1]
+		if !strings.Contains(st, "minutes") {
+			continue
+		}
 		if !(strings.HasPrefix(st, "sync.Mutex.Lock") || strings.HasPrefix(st, "sync.RWMutex") || strings.HasPrefix(st, "semacquire")) {
 			continue
 		}
@@ -79,9 +83,6 @@ func lockWaitersInRepo(dump string) (n int, stacks []string) {
 }
 
 func TestConcurrent(t *testing.T) {
-	if os.Getenv("C14_DEV_ONLY") == "seq" { // development switch for sensitivity runs of the sequential model
-		t.Skip("C14_DEV_ONLY=seq")
-	}
 	rapid.Check(t, func(t *rapid.T) {
 		completed := false
 		defer func() {
@@ -430,9 +431,6 @@ func TestConcurrent(t *testing.T) {
 				atomic.AddInt64(&raceUnknown, 1)
 			}
 			evid.Count("race." + rep.Key)
-			if os.Getenv("C14_RACE_SURVEY") != "" {
-				continue
-			}
 			if kf.Report(t, "C14", key, "data race between pool operations:\n%s", rep.Text) {
 				continue
 			}
